@@ -462,6 +462,11 @@ func (ed Editor) InsertDefinitionsTable(pos int, definitions [][2]string, width 
 // to set Options for the invocation.
 func (ed Editor) InsertDefinitionsTableOpts(pos int, definitions [][2]string, width int, opts Options) Editor {
 	opts = opts.WithDefaults()
+	if width < 0 {
+		// a negative width leaves the definitions the minimum wrap width, exactly like 0; clamping keeps
+		// `width - leftWidth - minBetween` from wrapping around
+		width = 0
+	}
 
 	const (
 		termLeftTabWidth = 2
